@@ -642,8 +642,10 @@ static int cif_loop_get_names_internal(cif_loop_tp *loop, UChar ***item_names, i
                             next_name = (string_element_tp *) malloc(sizeof(string_element_tp));
 
                             if (next_name != NULL) {
-                                GET_COLUMN_STRING(cif->get_loop_names_stmt, 0, next_name->string, HANDLER_LABEL(name));
+                                /* link the element first, so that it is released with the list if its string cannot be copied */
+                                next_name->string = NULL;
                                 LL_PREPEND(name_list, next_name);  /* prepending is O(1), appending would be O(n) */
+                                GET_COLUMN_STRING(cif->get_loop_names_stmt, 0, next_name->string, HANDLER_LABEL(name));
                                 name_count += 1;
                                 continue;
                             }
@@ -689,6 +691,7 @@ static int cif_loop_get_names_internal(cif_loop_tp *loop, UChar ***item_names, i
                                 while (temp_names[++name_count] != NULL) {
                                     free(temp_names[name_count]);
                                 }
+                                free(temp_names);
                             } /* else drop out the bottom and fail */
                             break;
                     }
